@@ -1,4 +1,4 @@
-add("C04", "checks/c04_numeric.c", ["default-asan", "default-plain", "c89-plain", "c99-plain", "optall-plain"], ["default-asan", "default-plain", "c89-plain", "uchar-plain", "c99-plain", "os-plain", "optall-plain"],
+add("C04", "checks/c04_numeric.c", ["default-asan", "default-plain", "c89-plain", "c99-plain", "optall-plain", "ndebug-plain"], ["default-asan", "default-plain", "c89-plain", "uchar-plain", "c99-plain", "os-plain", "optall-plain", "ndebug-plain", "mcu-plain"],
     "cases = one literal sent as the parameter of a command and decoded by SCPI_ParamDouble/Float/Number/Int32/UInt32/Int64/UInt64/Bool: "
     "decimal literals from the 488.2 grammar (1..25 digits, every sign/point placement, exponents up to +-330, white space before the "
     "exponent mark and after it), exact midpoints between adjacent floats/doubles and their neighbours, boundary-biased integer literals in "
